@@ -284,7 +284,7 @@ func TestC02(t *testing.T) {
 	defer r.Finish()
 	r.Rule("case = 1-4 validly framed pipelined requests (fixed-length or chunked with PRNG chunk splits, sizes 0..24 KiB around the 8 KiB prefetch and MaxRequestBodySize 10000, bodies stuffed with decoy request text, optional Expect: 100-continue, optional trailing garbage) x handler program (ignore/postbody/readk/readall/multipart) x StreamRequestBody x ReduceMemoryUsage x Expect handling (none, ContinueHandler accept/reject, ExpectHandler accept/reject) x fragmentation; distinct = (config, framing kinds, size classes); non-trivial = some message has a body the handler does not fully read, or an expectation, or a body over the limit")
 	r.Assume("generator renders valid framing (re-checked per case with verif/internal/h1: a case whose reference parse disagrees with the generator is a harness failure)")
-	n := r.N(12_000, 400_000)
+	n := r.N(40_000, 600_000)
 	programs := []string{"ignore", "postbody", "readk", "readall", "multipart", "reset-request", "timeout", "resetbody"}
 	expects := []string{"", "", "continue-accept", "continue-reject", "expect-accept", "expect-reject"}
 	frags := []int{1, 13, 4096, 0, 0}
